@@ -246,17 +246,33 @@ Print Assumptions C10_build_from_empty_memo.
 (** With the memo policy of the current source, every history of
     operations and Build calls on ONE long-lived Builder - or on Builders
     replaced at any points - passes through the same worlds, executes the same
-    rules and ends each build the same way as the history [run] of the
-    theorems above, whatever the Builder held when the history began. *)
+    rules and ends each build the same way as the same history with Builders
+    that hold nothing ([wrun]: a function of the world alone; [SWipeOut] =
+    the whole out/ directory removed), whatever the Builder held when the
+    history began. *)
 Theorem C10_one_builder_eq_fresh_builders : forall h s,
-  s_world (fst (srun memo_policy_of_source h s)) = run (plain h) (s_world s) /\
-  snd (srun memo_policy_of_source h s) = trace (plain h) (s_world s).
-Proof. exact source_session_eq_run. Qed.
+  s_world (fst (srun memo_policy_of_source h s)) = wrun h (s_world s) /\
+  snd (srun memo_policy_of_source h s) = wtrace h (s_world s).
+Proof. exact source_session_eq_wrun. Qed.
 Print Assumptions C10_one_builder_eq_fresh_builders.
+
+(** ... and [wrun], when out/ is never removed wholesale, is [run]. *)
+Theorem C10_one_builder_eq_run : forall h s,
+  no_wipeb h = true ->
+  s_world (fst (srun memo_policy_of_source h s)) = run (plain h) (s_world s).
+Proof. exact source_session_eq_run. Qed.
+Print Assumptions C10_one_builder_eq_run.
+
+(** The invariant of [C10_cache_valid] also holds along histories in which
+    out/ (with out/CACHE) is removed at any points. *)
+Theorem C10_cache_valid_with_wipes : forall h w,
+  winv w -> shist_in_scope h w -> winv (wrun h w).
+Proof. exact wrun_inv. Qed.
+Print Assumptions C10_cache_valid_with_wipes.
 
 (** incremental = clean for every history of Build calls on one Builder *)
 Theorem C10_one_builder_incremental_eq_clean : forall h rs src always always' ts s1 e1 L,
-  hist_in_scope (plain h) (empty_world rs src) ->
+  shist_in_scope h (empty_world rs src) ->
   let s := fst (srun memo_policy_of_source h (new_session rs src)) in
   build_in_scope ts (s_world s) -> load_world (s_world s) ts = LOk L ->
   sbuild memo_policy_of_source always ts s = (s1, e1, BOk) ->
@@ -271,7 +287,7 @@ Print Assumptions C10_one_builder_incremental_eq_clean.
 
 (** the next Build call on the same Builder, nothing changed, executes nothing *)
 Theorem C10_one_builder_noop_rebuild : forall h rs src always ts s1 e1,
-  hist_in_scope (plain h) (empty_world rs src) ->
+  shist_in_scope h (empty_world rs src) ->
   let s := fst (srun memo_policy_of_source h (new_session rs src)) in
   build_in_scope ts (s_world s) ->
   sbuild memo_policy_of_source always ts s = (s1, e1, BOk) ->
@@ -283,7 +299,7 @@ Print Assumptions C10_one_builder_noop_rebuild.
     no cache entry, and the next call on the same Builder does what a call on a
     new Builder does *)
 Theorem C10_one_builder_failed_not_remembered : forall h rs src always ts s1 ex e L,
-  hist_in_scope (plain h) (empty_world rs src) ->
+  shist_in_scope h (empty_world rs src) ->
   let s := fst (srun memo_policy_of_source h (new_session rs src)) in
   build_in_scope ts (s_world s) -> load_world (s_world s) ts = LOk L ->
   sbuild memo_policy_of_source always ts s = (s1, ex, BFail e) ->
@@ -302,7 +318,7 @@ Print Assumptions C10_one_builder_failed_not_remembered.
     of [C10_one_builder_incremental_eq_clean] is false for [MemoKept] ... *)
 Theorem C10_kept_memo_refuted :
   ~ (forall h rs src always always' ts s1 e1 L,
-       hist_in_scope (plain h) (empty_world rs src) ->
+       shist_in_scope h (empty_world rs src) ->
        let s := fst (srun MemoKept h (new_session rs src)) in
        build_in_scope ts (s_world s) -> load_world (s_world s) ts = LOk L ->
        sbuild MemoKept always ts s = (s1, e1, BOk) ->
@@ -438,9 +454,9 @@ Proof. split; [apply hist_in_scopeb_ok; vm_compute; reflexivity|vm_compute; refl
     and the same executions as [run] (here with the first example history) *)
 Example C10_nonvacuous_session :
   let h := (map SOp (firstn 6 ex_hist) ++ [SNewBuilder] ++ map SOp (skipn 6 ex_hist) ++
-            [SOp (OBuild ["p1/all"])])%list in
-  hist_in_scope (plain h) (empty_world ex_rules ex_src) /\
+            [SOp (OBuild ["p1/all"]); SWipeOut; SOp (OBuild ["p0/a"]); SOp (OBuild ["p0/a"])])%list in
+  shist_in_scope h (empty_world ex_rules ex_src) /\
   map fst (snd (srun memo_policy_of_source h (new_session ex_rules ex_src))) =
   [ ["p0/a"; "p1/b"; "p1/all"]; []; ["p0/a"; "p1/b"; "p1/all"]; ["p0/a"; "p1/b"]; ["p0/a"];
-    ["p1/zz"; "p1/b"]; ["p1/b"] ].
-Proof. split; [apply hist_in_scopeb_ok; vm_compute; reflexivity|vm_compute; reflexivity]. Qed.
+    ["p1/zz"; "p1/b"]; ["p1/b"]; ["p0/a"]; [] ].
+Proof. split; [apply shist_in_scopeb_ok; vm_compute; reflexivity|vm_compute; reflexivity]. Qed.
